@@ -1,7 +1,7 @@
 (* Extract.v -- extraction of the executable model and spec oracles to OCaml.
    ExtrOcamlBasic only; numbers stay the Coq datatypes. *)
 From Coq Require Import Extraction ExtrOcamlBasic.
-From Lhasa Require Import Base Generated Crc16 DecBase BitReader Null Lzs Lz5 Decoder S_Larc Lh1 Lzhuf PmaCommon Pm2 Pm1.
+From Lhasa Require Import Base Generated Crc16 DecBase BitReader Null Lzs Lz5 Decoder S_Larc Lh1 Lzhuf PmaCommon Pm2 Pm1 InputStream Header BasicReader.
 Extraction Language OCaml.
 Set Extraction Optimize.
 Extraction "../harness/ml/model.ml"
@@ -14,4 +14,7 @@ Extraction "../harness/ml/model.ml"
   lh1_init lh1_read lh1_max_read lh1_block_size
   StartHuff reconst update char_code EncodeChar EncodePosition lzhuf_encode bits_to_bytes lz77_expand_4k
   pm2_init pm2_read pm2_max_read pm2_block_size
-  pm1_init pm1_read pm1_max_read pm1_block_size.
+  pm1_init pm1_read pm1_max_read pm1_block_size
+  mk_source lha_input_stream_new lha_input_stream_read lha_input_stream_skip
+  lha_file_header_read mktime_utc collapse_path full_path
+  lha_basic_reader_new lha_basic_reader_next_file lha_basic_reader_read_compressed.
